@@ -18,6 +18,7 @@ mod json;
 mod render;
 mod rng;
 mod script;
+mod soup;
 mod stream;
 mod tape;
 
